@@ -104,6 +104,14 @@ class Ctx(object):
         by_result = {}
         for rec in records:
             pass
+        earlier = getattr(self, 'earlier_explore_stats', None)
+        if earlier:
+            # a property that explores on two interpreters (C12): the counts add up
+            stats = dict(stats)
+            for k, v in earlier.items():
+                if isinstance(v, (int, float)) and not isinstance(v, bool):
+                    stats[k] = stats.get(k, 0) + v
+            self.earlier_explore_stats = None
         self.explore_stats = stats
         if errors:
             # a refuted obligation found on another path stands on its own: it is reported (exit 1);
